@@ -64,7 +64,7 @@ def accept(wd, events, name="nested_trace"):
     return out
 
 
-INVS = ["HSound", "HSorted", "HDisjoint", "HIsRef", "HComplete", "HLongestOuter", "NoLostRange"]
+INVS = ["HSound", "HSorted", "HDisjoint", "HIsRef", "HComplete", "HCompleteDeclarative", "HLongestOuter", "NoLostRange"]
 PROPS = ["Shrinks", "Terminates"]
 
 
